@@ -624,8 +624,7 @@ func c15ReceiveBounds(c *Ctx, r *Report, rule string) {
 }
 
 var receiveBoundsExempt = map[string]string{
-	"Transfer.ReadMsg:slice-high (Conn).Read()#0+0 <= len(t1[:65535])": "p[:n] with n returned by Conn.Read(p): 0 <= n <= len(p) is the contract of io.Reader, which Conn.Read passes on from net.Conn / io.ReadFull",
-	"Transfer.inIxfr:index +1 <= len(*(Transfer).ReadMsg()#0.f3)":      "in.Answer[0] behind isSOAFirst(in), whose first conjunct is len(in.Answer) > 0: the prover has no postconditions of boolean helpers; the guard and the helper's conjunct are decided by the two obligations that follow",
+	"Transfer.inIxfr:index +1 <= len(*(Transfer).ReadMsg()#0.f3)": "in.Answer[0] behind isSOAFirst(in), whose first conjunct is len(in.Answer) > 0: the prover has no postconditions of boolean helpers; the guard and the helper's conjunct are decided by the two obligations that follow",
 }
 
 // soaPredicateGuards: isSOAFirst / isSOALast can say yes only for a non-empty answer section, and every
